@@ -199,6 +199,12 @@ class BulkProof:
                     st.tup[k] = ("slice", v[1], a, c)
                 else:
                     del st.tup[k]
+            elif v and v[0] == "view":
+                a, c = rt(v[1]), rt(v[2])
+                if ok(a, c):
+                    st.tup[k] = ("view", a, c)
+                else:
+                    del st.tup[k]
             elif v and v[0] in ("int", "refint"):
                 a = rt(v[1])
                 if ok(a):
@@ -325,6 +331,8 @@ class BulkProof:
             return
         if av[0] == "slice":
             st.sl[l] = av[1:]
+        elif av[0] == "view":
+            st.subview[l] = (av[1], av[2])
         elif av[0] == "bool":
             st.bconst[l] = av[1]
         elif av[0] == "refint":
@@ -1141,7 +1149,47 @@ class BulkProof:
         if nm in ("view_mut", "reborrow", "view") and args and self.is_arr(args[0]):
             st.subview[dl] = (Z0, ("N", 0))
             return
-        if nm == "slice_axis_mut" and self.is_arr(args[0]) and len(t["args"]) == 3:
+        # a view of the array that is not the whole array: (lo, hi) positions of the routine's own view
+        recv_view = None
+        if als and als[0] is not None and als[0] in st.subview and not isinstance(st.subview[als[0]][0], str):
+            recv_view = st.subview[als[0]]
+        if nm == "split_at" and len(t["args"]) == 3 and (self.is_arr(args[0]) or recv_view is not None):
+            # ndarray's split_at(Axis(0), mid) of a 1-D view [lo, hi): ([lo, lo+mid), [lo+mid, hi)); panics unless mid ≤ len
+            lo0, hi0 = recv_view if recv_view is not None else (Z0, ("N", 0))
+            mid = self.term(t["args"][2])
+            if mid is None:
+                raise Fail("split point not modelled")
+            m = self.plus(st, lo0, mid)
+            self.need(st, "split", st.le(m, hi0), "split_at at %s needs mid ≤ len (%s ≤ %s)" % (b.where(bb, "term"), m, hi0))
+            st.d.add(m[0], hi0[0], hi0[1] - m[1])
+            st.tup[(dl, 0)] = ("view", lo0, m)
+            st.tup[(dl, 1)] = ("view", m, hi0)
+            return
+        if nm in ("slice_axis_mut", "slice_axis_move") and recv_view is not None and not self.is_arr(args[0]) and len(t["args"]) == 3:
+            rng = st.subview.get(als[2])
+            if rng is None or not isinstance(rng[0], str):
+                raise Fail("%s with an unmodelled range" % nm)
+            adt, fs = rng
+            lo0, hi0 = recv_view
+            if not fs or any(f is None for f in fs):
+                raise Fail("%s range bound not modelled" % nm)
+            ab = [self.plus(st, lo0, f) for f in fs]
+            self.need(st, "slice", all(st.le(x_, hi0) for x_ in ab) and (len(ab) < 2 or st.le(ab[0], ab[1])),
+                      "%s at %s needs its bounds ≤ len of the sub-view" % (nm, b.where(bb, "term")))
+            for x_ in ab:
+                st.d.add(x_[0], hi0[0], hi0[1] - x_[1])
+            if adt == "std::ops::RangeTo":
+                st.subview[dl] = (lo0, ab[0])
+                return
+            if adt == "std::ops::RangeFrom":
+                st.subview[dl] = (ab[0], hi0)
+                return
+            if adt == "std::ops::Range":
+                st.d.add(ab[0][0], ab[1][0], ab[1][1] - ab[0][1])
+                st.subview[dl] = (ab[0], ab[1])
+                return
+            raise Fail("%s range kind not modelled" % nm)
+        if nm in ("slice_axis_mut", "slice_axis_move") and self.is_arr(args[0]) and len(t["args"]) == 3:
             rng = st.subview.get(als[2])
             if rng is None or not isinstance(rng[0], str):
                 raise Fail("slice_axis_mut with an unmodelled range")
